@@ -445,6 +445,15 @@ Definition chk (v : value) (leaves : list (list string * value)) : bool :=
                     case = {"ns": nsname, "dtype": width, "variant": variant}
                     ctx.count(("config", nsname, width, variant), True, kind="config-rebuild")
                     try:
+                        if width != "float32":
+                            # the file has a past: an earlier instance with MORE settings (extra flow options, a nested option dictionary with
+                            # more keys, a periodic parameter, other bounds) wrote its configuration to the same file first
+                            case["file_history"] = "an earlier, richer configuration was saved to the same file"
+                            pre = Aspire(log_likelihood=tgt.log_likelihood, log_prior=tgt.log_prior, dims=2, flow=sd.FakeFlow(2), xp=NS[nsname],
+                                         flow_backend="fake", parameters=["x_0", "x_1"], prior_bounds={"x_0": [-50.0, 50.0], "x_1": [-60.0, 60.0]},
+                                         periodic_parameters=["x_1"], bounded_to_unbounded=True, bounded_transform="probit", eps=1e-4,
+                                         hidden=9, extra_opt={"z": [3, 4]}, opts={"k": [5], "zz": 1, "act": "relu"})
+                            pre.sample_posterior(5, sampler="importance", checkpoint_path=path)
                         a.sample_posterior(5, sampler="importance", checkpoint_path=path)
                         b = Aspire.resume_from_file(path, log_likelihood=tgt.log_likelihood, log_prior=tgt.log_prior)
                         c0, c1 = a.config_dict(include_sampler_config=False), b.config_dict(include_sampler_config=False)
